@@ -124,3 +124,10 @@ claim("C09", "history monitor with tracker index vectors: after every step the G
       "xr_reproject / .odc.reproject of DataArrays and Datasets to GeoBoxes, CRS strings and 'utm' must yield the destination GeoBox on the container and each variable, CRS included, "
       "without crs/crs_wkt/grid_mapping/gcps/epsg attrs and with non-spatial variables passed through. ~1.5e3 histories + 350 reprojections quick.",
       _TB + " Bit-equality of recovered transforms is logged, not demanded (labels are floats).", "DESIGN.md 5/C09")
+
+claim("C15", "file-content monitor: every output of write_cog / to_cog / write_cog_layers is read back with rasterio (and tifffile for the tiling flag), overwrite protocol observed through a sys.addaudithook file-system recorder",
+      "Per configuration: pixels, dtype, band count/order, transform, CRS, nodata identical; internally tiled with block sizes multiples of 16 and shrunk to small images; exactly the requested "
+      "overview levels with sizes ceil(N/level) (none by default under 512 px, [2..32] from 512), externally supplied overviews stored pixel-identical and in order; existing destination + "
+      "overwrite=False => IOError with content hash / inode / mtime unchanged and no write-open, unlink or rename event on it; overwrite=True => replaced. ~330 writes quick / 2e4 thorough over "
+      "shapes 1..700, 3 layouts, 8 dtypes, rotated transforms, block sizes incl. non-multiples, windowed writes, intermediate compression, file and memory destinations.",
+      _TB + " GDAL is both writer backend and reader.", "DESIGN.md 5/C15")
